@@ -82,7 +82,7 @@ def build_table(R, rng):
     def add_ns(entry, call):
         """Non-square arguments of every kind: wide, tall, single row, single column (the last two broadcast against their own
         conjugate transpose, so a guard-free comparison A == A^H does not fail by itself)."""
-        for (mm, nn) in ((2, 3), (3, 2), (1, 3), (3, 1), (1, 2), (2, 1), (4, 2)):
+        for (mm, nn) in ((2, 3), (3, 2), (1, 3), (3, 1), (1, 2), (2, 1), (4, 2), (33, 34), (66, 65)):
             Ans = _q(rng, mm, nn)
             cells.append((entry, f"NS:{mm}x{nn}", (lambda Ans=Ans: call(Ans)), (Ans,)))
 
@@ -206,6 +206,20 @@ def build_table(R, rng):
     for nn in (2, 3, 6):
         for lab, NH in _non_herm_structured(rng, nn).items():
             add("tridiagonalize", f"NH:{lab}:n={nn}", lambda NH=NH: D.tridiagonalize(NH), NH)
+    # LARGE arguments that violate A = A^H in a single entry (a guard that samples, or checks a leading block only, lets them pass):
+    # n above 16 / 32 / 64 / 128, perturbed position at even and odd indices, first / middle / last rows, diagonal and off-diagonal
+    for nn in (17, 33, 65, 80, 130):
+        Hb = refq.fa(_herm(rng, nn))
+        for (lab, i, j) in (("(0,1)", 0, 1), ("(1,3)", 1, 3), ("(n-2,n-1)", nn - 2, nn - 1), ("(n/2,n/2-1)", nn // 2, nn // 2 - 1),
+                            ("(n-1,0)", nn - 1, 0), ("diag_odd", 2 * (nn // 4) + 1, 2 * (nn // 4) + 1), ("diag_last", nn - 1, nn - 1)):
+            d = Hb.copy()
+            d[i, j] = d[i, j] + (np.array([0.0, 0.7, -0.4, 0.5]) if i == j else np.array([0.8, 0.5, -0.6, 0.3]))
+            NH = refq.qa(d)
+            for name in ("quaternion_eigendecomposition", "quaternion_eigenvalues", "quaternion_eigenvectors"):
+                f = getattr(D, name)
+                add(name, f"NH:large_single_entry{lab}:n={nn}", lambda f=f, NH=NH: f(NH), NH)
+            add("tridiagonalize", f"NH:large_single_entry{lab}:n={nn}", lambda NH=NH: D.tridiagonalize(NH), NH)
+            add("det(Moore)", f"NH:large_single_entry{lab}:n={nn}", lambda NH=NH: U.det(NH, "Moore"), NH)
     one = refq.qa(np.array([[[2.0, 0, 0, 0]]]))
     add("tridiagonalize", "SZ:1x1", lambda: D.tridiagonalize(one), one)
     add("tridiagonalize", "SP", lambda: D.tridiagonalize(R.sparse_from_dense(_herm(rng, 3))))
